@@ -129,6 +129,9 @@ package sourceaddrs
 //@   pure
 //@   sweep
 //@   ensures C07.Parse.policy: err == nil ==> remotePolicy(r) && normSub(r.subPath)
+//@   replay addrRoundTrip@C06:
+//@   ensures-bounded addrRoundTrip C06.remote.roundtrip-on-grammar: true
+//@   ensures C06.remote.subpath-url-safe: err == nil ==> urlSafePath(r.subPath)
 //@   ensures C07.Parse.nouser: err == nil ==> r.pkg.url.User == nil
 //@   assume pat.remote: numSubexp(remoteSourceTypePattern) == 2
 
